@@ -95,6 +95,13 @@ def dispatch (f : String) (j : Json) : Option Json :=
         let s : ArgsShape := ⟨po, ar, va != 0, ko, kd, kw != 0, de⟩
         return Json.bool (if (getBool j "star").getD false then argStarOk s else argNormalOk s)
       | _ => return Json.mkObj [("err", "bad shape")]
+  | "C05.importfrom_check" => some <| Id.run do
+      let some a := (get j "alias").bind parseLoc | return Json.mkObj [("err", "bad alias")]
+      let some st := (get j "stmt").bind parseLoc | return Json.mkObj [("err", "bad stmt")]
+      let some a := a | return Json.mkObj [("err", "bad alias")]
+      let some st := st | return Json.mkObj [("err", "bad stmt")]
+      let some n := getNat j "n" | return Json.mkObj [("err", "bad n")]
+      return Json.bool (if (getBool j "single").getD true then importFromNameOk n a st else endsWithStmt a st)
   | "C05.span" => some <| Id.run do
       -- text of a span inside the wrapper vs inside the source (both sides of `wrap_positions`)
       let some pre := getStr j "pre" | return Json.mkObj [("err", "bad pre")]
